@@ -502,6 +502,30 @@ func checkConfig(res *h.Result, c leader.ElectionConfig) {
 	if p.js.Load() != 0 || p.kv.Load() != 0 || c16Store.Calls() != calls0 {
 		addViol(res, "C16", "reject-side-effects", "store-contacted-on-reject", fmt.Sprintf("%s rejected after contacting the provider (JetStream %d, KeyValue %d)", desc, p.js.Load(), p.kv.Load()))
 	}
+	// the second public entry point, NewElectionWithConn, with a connection that is not
+	// connected to anything: an invalid configuration is rejected in the same way - a
+	// validation error naming an offending field - without the connection being used (any
+	// use of it fails with a connection error instead)
+	if res.Evals%8 == 0 {
+		res.Obs["c16.with_conn_rejects"]++
+		func() {
+			defer func() {
+				if r := recover(); r != nil {
+					addViol(res, "C16", "reject-side-effects", "with-conn:panic", fmt.Sprintf("NewElectionWithConn panicked on %s: %v", desc, r))
+				}
+			}()
+			_, err2 := leader.NewElectionWithConn(&nats.Conn{}, c)
+			var ve2 *leader.ValidationError
+			switch {
+			case err2 == nil:
+				addViol(res, "C16", "reject", "with-conn:accepts-invalid", "NewElectionWithConn accepted "+desc)
+			case !errors.As(err2, &ve2):
+				addViol(res, "C16", "reject-side-effects", "with-conn:connection-used-before-validation", fmt.Sprintf("NewElectionWithConn on an unconnected connection: %s rejected with %T %v, not a validation error (the connection was used first)", desc, err2, err2))
+			case !off[ve2.Field]:
+				addViol(res, "C16", "reject-field", "with-conn:names-wrong-field:"+ve2.Field, fmt.Sprintf("NewElectionWithConn: %s rejected naming field %q, offending fields %v", desc, ve2.Field, off))
+			}
+		}()
+	}
 }
 
 // withOptionals sets the optional collaborators (which the statement does not make part of
